@@ -4,10 +4,12 @@
 (* by TYPES_VTRACE:                                                        *)
 (*   {"id", "g": graph, "t": pattern type root, "v": value (Types.tla      *)
 (*    form), "runs": [{"cfg": "direct"|"shaken"|"merged1"|"merged2",       *)
-(*                     "form": "type"|"as"|"tuple"|"partial",              *)
+(*                     "form": "type"|"as"|"tuple"|"partial"|"receive",    *)
 (*                     "acc": "acc"|"rej"|"err"|"skip"}]}                  *)
 (* "acc"/"rej": the rendered program `f = #(S | Zq) { | =<pattern> => Ok | *)
-(* No }, <value> f` evaluated to Ok / No in that configuration; "err": it  *)
+(* No }, <value> f` (or, form "receive", a process whose first select      *)
+(* source is `#W['t]` and that is sent W[<value>]) evaluated to Ok / No in *)
+(* that configuration; "err": it                                           *)
 (* ended in a runtime error or crash; "skip": the compiler rejected the    *)
 (* rendering (not judged).  TLC recomputes membership and requires         *)
 (*   SAME  for each form, the verdict is identical in all configurations   *)
